@@ -848,6 +848,7 @@ func run(cx *lib.Ctx) {
 		res.Count("corpus")
 	}
 	directedCustomDecode(cx)
+	directedDeep(cx)
 	R := cx.R.Fork()
 	n := cx.Scale(4000, 90000)
 	for i := 0; i < n; i++ {
